@@ -35,6 +35,12 @@ def gen_case(rng, cid, tier):
         if rng.random() < 0.2:
             # the job throws std::runtime_error (after some of its calls); the pool catches and logs it
             body.insert(rng.randrange(len(body) + 1), "x")
+        if rng.random() < 0.3:
+            # the destructor of the job's closure enqueues a continuation (fork-join idiom) / reads the observers
+            dt = []
+            for _ in range(rng.choice([1, 1, 2])):
+                dt.append(f"e{rng.randrange(k)}" if k > 0 and rng.random() < 0.7 else rng.choice(["d", "i"]))
+            body = body + ["~"] + dt
         lines.append("job " + " ".join([str(k)] + body))
 
     def calls(n, allow_wait=True):
@@ -80,18 +86,21 @@ def gen_case(rng, cid, tier):
 
 EXPLORE = [
     # (scenario lines, quick runs, thorough runs): systematic depth-first enumeration of all schedules
-    (["pool 1", "job 0", "client w", "main e0"], 600, 10000),
-    (["pool 1", "job 0", "client w", "client w", "main e0"], 600, 10000),          # the D6 shape
-    (["pool 1", "client u", "client u", "main t"], 600, 10000),                    # the D6b shape
-    (["pool 1", "job 0", "client u", "client w", "main e0 t"], 400, 10000),
-    (["pool 2", "job 0", "job 1 e0", "main e1 w"], 400, 10000),
-    (["pool 1", "job 0", "job 1 e0 t", "client w", "main e1 u"], 0, 10000),
-    (["pool 2", "job 0", "client e0 w", "main e0 w"], 0, 10000),
-    (["pool 1", "job 0 x", "client w", "main e0 w"], 400, 10000),                  # a job that throws
-    (["pool 1", "job 0", "job 1 e0 x e0", "main e1 w d"], 320, 10000),              # throws after enqueuing a child
-    (["pool 1 init=2", "client u", "main t"], 320, 10000),                          # terminate() during worker start-up
-    (["pool 1", "job 0", "job 1 t e0 d", "client u", "main e1 u"], 0, 10000),       # enqueue inside a job after terminate
-    (["pool 1", "job 0 i", "main e0 e0 d"], 0, 10000),                              # destruction while jobs are queued
+    (["pool 1", "job 0", "client w", "main e0"], 600, 6000),
+    (["pool 1", "job 0", "client w", "client w", "main e0"], 600, 6000),          # the D6 shape
+    (["pool 1", "client u", "client u", "main t"], 600, 6000),                    # the D6b shape
+    (["pool 1", "job 0", "client u", "client w", "main e0 t"], 400, 6000),
+    (["pool 2", "job 0", "job 1 e0", "main e1 w"], 400, 6000),
+    (["pool 1", "job 0", "job 1 e0 t", "client w", "main e1 u"], 0, 6000),
+    (["pool 2", "job 0", "client e0 w", "main e0 w"], 0, 6000),
+    (["pool 1", "job 0 x", "client w", "main e0 w"], 400, 6000),                  # a job that throws
+    (["pool 1", "job 0", "job 1 e0 x e0", "main e1 w d"], 320, 6000),              # throws after enqueuing a child
+    (["pool 1 init=2", "client u", "main t"], 320, 6000),                          # terminate() during worker start-up
+    (["pool 1", "job 0", "job 1 t e0 d", "client u", "main e1 u"], 0, 6000),       # enqueue inside a job after terminate
+    (["pool 1", "job 0 i", "main e0 e0 d"], 0, 6000),                              # destruction while jobs are queued
+    (["pool 1", "job 0", "job 1 ~ e0", "client w", "main e1"], 400, 6000),          # the closure's destructor enqueues
+    (["pool 2", "job 0", "job 1 e0 x ~ e0 d", "main e1 w d"], 320, 6000),           # fork-join with a throwing body
+    (["pool 1", "job 0", "job 1 t ~ e0", "client u", "main e1 w"], 0, 6000),        # destructor enqueues after terminate
 ]
 
 
@@ -110,7 +119,8 @@ class C10(flow.Spec):
     harness = dict(name="c10", sources=["c10.cpp"], flags=["-include", SHIM], repo_sources=["tlx/thread_pool.cpp"],
                    std_flags=["-O0" if f == "-O1" else f for f in core.SAN_FLAGS])
     nontrivial_rule = ("scenario = pool size 1-4 (optionally with an init_thread callback), a table of job bodies (jobs enqueueing "
-                       "jobs / terminating the pool / throwing std::runtime_error / calling done() and idle()), "
+                       "jobs / terminating the pool / throwing std::runtime_error / calling done() and idle(); closures whose destructor "
+                       "enqueues a continuation or reads the observers), "
                        "0-3 client threads and the main thread issuing enqueue / loop_until_empty / loop_until_terminate / "
                        "terminate, run under several PRNG schedules (with sticky and spurious-wake-up variants); a case is "
                        "non-trivial when in some run a waiter really blocked on cv_finished_ and either two workers were "
